@@ -224,6 +224,18 @@ def lifecycle_case(clsname, queued, rng):
         if k != 'ok':
             bad('event-failed-%s' % k, 'C10.lifecycle', err=repr(r))
             return out
+    # a model added with an Enum member as its own initial state — also a FALSY member (IntEnum value 0)
+    if rng.random() < 0.35:
+        import enum
+        Phase = enum.IntEnum('Phase', [('IDLE', 0), ('RUN', 1), ('DONE', 2)])
+        em = cls(model=None, states=Phase, transitions=[['go', Phase.IDLE, Phase.RUN], ['go', Phase.RUN, Phase.DONE]],
+                 initial=Phase.RUN, queued=queued, auto_transitions=False, **kw)
+        for want in (Phase.IDLE, Phase.DONE, None):
+            pm = PlainModel('enum')
+            em.add_model(pm, initial=want)
+            got = pm.state
+            if got != (want if want is not None else Phase.RUN):
+                bad('late-model-wrong-initial', 'C10.add-later', state=str(got), expected=str(want), enum=True)
     # a model added later, with its own initial state or the machine's
     late = PlainModel('late')
     init = rng.choice([None, 'B'])
@@ -454,10 +466,34 @@ def two_machines_case(rng):
     from transitions import Machine
     bstates = ['b0', 'b1', 'b2']
     btrans = [['f0', 'b0', 'b1'], ['f0', 'b1', 'b2'], ['f1', '*', 'b0']]
+    auto = rng.random() < 0.6
     mb = Machine(model=[both.model_objs[m] for m in d.models], states=bstates, transitions=btrans, initial='b0',
-                 model_attribute='mode', auto_transitions=False)
+                 model_attribute='mode', auto_transitions=auto)
     ref = Machine(model=[PlainModel('x') for _ in d.models], states=bstates, transitions=btrans, initial='b0',
-                  model_attribute='mode', auto_transitions=False)
+                  model_attribute='mode', auto_transitions=auto)
+    if auto:
+        # every helper of a machine with a custom model_attribute carries that attribute in its name: nothing may be
+        # bound under the plain to_<state> / is_<state> names (those belong to a machine using the default attribute),
+        # and to_mode_<state>() works from EVERY state, also towards states declared earlier
+        mo0 = both.model_objs[d.models[0]]
+        plain = [n for n in ['to_' + b for b in bstates] + ['is_' + b for b in bstates] if n in mo0.__dict__]
+        if plain:
+            out.append(('custom-attribute-machine-bound-plain-helper-names', {'names': plain}, 'C10.two-machines'))
+            return out, d
+        before = both.state_id(mo0)
+        for frm, to in (('b0', 'b2'), ('b2', 'b0'), ('b0', 'b1'), ('b1', 'b0'), ('b0', 'b0')):
+            try:
+                ok = getattr(mo0, 'to_mode_' + to)()
+            except BaseException as e:      # noqa
+                ok = type(e).__name__
+            if ok is not True or mo0.mode != to:
+                out.append(('to-helper-of-second-machine-failed', {'from': frm, 'to': to, 'result': str(ok), 'mode': mo0.mode},
+                            'C10.two-machines'))
+                return out, d
+        if both.state_id(mo0) != before:
+            out.append(('second-machine-moved-the-first-machines-state', {}, 'C10.two-machines'))
+            return out, d
+        getattr(ref.models[0], 'to_mode_b0')()
     for c in d.history:
         try:
             both.do_cmd(c)
